@@ -62,6 +62,9 @@ def gen_alignment(asc, seed):
     for q, d, mp, nid in sorted(heads + grace, key=lambda x: (x[0], x[2])):
         on = 1.0 + float(q) * 0.5 + rng.choice((0.0, 0.0, rng.uniform(-0.03, 0.03)))
         off = on + max(0.02, float(d) * 0.45)
+        if rng.random() < 0.06:
+            # a key released at the moment it is struck (or so soon after that both events share a tick)
+            off = on + rng.choice((0.0, 0.0005, 0.001))
         x = rng.random()
         if x < 0.12:
             align.append({"label": "deletion", "score_id": nid})
